@@ -380,10 +380,10 @@ def mutated_set(seed, i, corpus):
 
 
 # ---------------------------------------------------------------- running --
-def one_run(wd, order, entropy, clock, pid, opts, env_extra=None, stdout_file=False, aslr=False, out_dir=True):
+def one_run(wd, order, entropy, clock, pid, opts, env_extra=None, stdout_file=False, aslr=False, out_dir=True, exe=None):
     env = sim_env(base_env(env_extra), entropy=entropy, clock=clock, pid=pid)
     shutil.rmtree(os.path.join(wd, "out"), ignore_errors=True)
-    argv = [PENNE, "emit"] + (["--out-dir", "out"] if out_dir else []) + list(opts) + list(order)
+    argv = [exe or PENNE, "emit"] + (["--out-dir", "out"] if out_dir else []) + list(opts) + list(order)
     r = run_proc(argv, wd, env, stdout_to=os.path.join(wd, "stdout.txt") if stdout_file else None, aslr=aslr)
     arte = {}
     od = os.path.join(wd, "out")
@@ -477,6 +477,43 @@ def evaluate_set(s, wd, cfg, rng, stats):
             viol.append(("environment_dependent_output", "env %s stdout_file=%s -> %s, baseline -> %s" % (env_extra, to_file, v, first[1]),
                          {"env": env_extra}))
             break
+    # D2b: everything around the inputs differs at once - another (deeper)
+    # current directory, other file times and modes, clutter next to the
+    # sources, another name of the executable, other HOME / TMPDIR / COLUMNS /
+    # locale: compilation is a function of its inputs only
+    if not viol:
+        wd2 = os.path.join(wd, "elsewhere", "a rather long directory name \u00e9")
+        fresh_dir(wd2)
+        write_files(wd2, s["files"])
+        for k, n in enumerate(sorted(s["files"])):
+            p = os.path.join(wd2, n)
+            try:
+                os.utime(p, (k * 86400, (2**31 - 1) if k % 2 else 86400 * (k + 1)))
+                os.chmod(p, 0o400 if k % 2 else 0o664)
+            except OSError:
+                pass
+        clutter = {"penne.toml": b'backend = "false"\nwasm = true\n', "Penne.toml": b"wasm = true\n", ".penne.toml": b"][",
+                   "config.toml": b'backend_args = "-x"\n', "zz_clutter.pn": b"fn fn fn {{{ \"", "main.pn.ll": b"; stale\n"}
+        for n, data in clutter.items():
+            if n not in s["files"] and not os.path.exists(os.path.join(wd2, n)):
+                with open(os.path.join(wd2, n), "wb") as f:
+                    f.write(data)
+        os.makedirs(os.path.join(wd2, "bin2"), exist_ok=True)
+        alias = os.path.join(wd2, "bin2", "pn")
+        os.symlink(PENNE, alias)
+        os.makedirs(os.path.join(wd2, "tmp2"), exist_ok=True)
+        env_extra = {"HOME": "/nonexistent", "TMPDIR": os.path.join(wd2, "tmp2"), "COLUMNS": "31", "LINES": "7", "LANG": "tr_TR.UTF-8",
+                     "LC_ALL": "C", "USER": "someone", "TERM": "vt100", "PENNE_BACKEND": "/nonexistent/backend", "PENNE_LLI": "/nonexistent/lli",
+                     "TZ": "Pacific/Kiritimati", "CARGO_MANIFEST_DIR": "/nonexistent", "PWD": wd2}
+        clock, pid = sim_params()
+        r, arte = one_run(wd2, order, seeds[0], clock, pid, base_opts, env_extra=env_extra, exe=alias)
+        stats["runs"] += 1
+        stats["ambient_runs"] = stats.get("ambient_runs", 0) + 1
+        v = verdict_of(r)
+        if v != first[1] or arte != first[2]:
+            viol.append(("environment_dependent_output", "another current directory, file times, clutter, executable name and environment -> %s, baseline -> %s\n--- stderr there\n%s\n--- stderr baseline\n%s" %
+                         (v, first[1], r.err.decode(errors="replace")[-600:], first[3].err.decode(errors="replace")[-600:]), {"ambient": True}))
+        shutil.rmtree(os.path.join(wd, "elsewhere"), ignore_errors=True)
     # D3: rendering in every colour x charset configuration
     if stats["sets"] % cfg["d3_every"] == 0 or panicked:
         clock, pid = sim_params()
@@ -762,7 +799,7 @@ def run(tier, seed):
         if budget and time.time() - t0 > budget:
             break
     tot = {"runs": 0, "compiler_panics": 0, "sets_with_diagnostics": 0, "render_configs": 0, "locations_checked": 0,
-           "verbose_runs": 0, "named_spans_checked": 0, "messages_checked": 0, "lexical_spans_checked": 0, "secondary_spans_checked": 0}
+           "verbose_runs": 0, "named_spans_checked": 0, "messages_checked": 0, "lexical_spans_checked": 0, "secondary_spans_checked": 0, "ambient_runs": 0}
     diag_lists = set()
     by_kind = {}
     multi = 0
@@ -827,6 +864,7 @@ def run(tier, seed):
         "secondary_spans_checked": tot["secondary_spans_checked"],
         "report_messages_checked": tot["messages_checked"],
         "verbose_mode_runs": tot["verbose_runs"],
+        "ambient_variation_runs": tot["ambient_runs"],
         "large_program_run_build_executions": large_runs,
         "aslr_probe_sets": aslr_n,
         "aslr_probe_differences": aslr_diff,
